@@ -93,6 +93,30 @@ def main():
             fl = {"diff": mode == "diff", "print": mode == "print", "skip_imports": si, "skip_generated": sg, "verbose": v}
             scs.append(Scenario([("p.patch", patch)], {"a.go": src}, fl, name=name))
             meta.append((name, mode, si))
+    # several files rewritten in one run (valid rewrites; sizes descending and ascending in processing order), and files an
+    # interrupted earlier run may have left behind: what ends up in each Go file must parse
+    def fbody(n, tag):
+        return ("package p\n\n" + "".join("func %s%d() {\n\tfoo(%d)\n\tprintln(\"%s\", %d)\n}\n\n" % (tag, i, i, tag * 4, i) for i in range(n))).encode()
+    MULTI = {"a_long.go": fbody(14, "long"), "b_short.go": fbody(1, "s"), "c_mid.go": fbody(5, "mid"), "d_tiny.go": b"package p\n\nfunc t() { foo(0) }\n", "e_longest.go": fbody(25, "lst")}
+    junk = b"%%%% leftover of an interrupted run %%%%\n" * 40
+    LEFT = {"a_long.go.gopatch.tmp": junk, "a_long.go.tmp": junk, ".a_long.go.tmp": junk, "a_long.go.0.tmp": junk, "a_long.go~": junk, "b_short.go.gopatch.tmp": junk,
+            "d_tiny.go.gopatch.tmp": junk, "d_tiny.go.tmp": junk}
+    multi_scs = []
+    for si in (False, True):
+        for v in (False, True):
+            multi_scs.append(Scenario([("p.patch", b"@@\nvar x expression\n@@\n-foo(x)\n+bar(x, x)\n")], dict(MULTI, **LEFT), {"skip_imports": si, "verbose": v}, args=sorted(MULTI), name="multi-write"))
+    multi_res = clicorr.run_scenarios(multi_scs)
+    multi_emitted = [(r, fn, r["obs"]["after"][fn][1]) for r in multi_res for fn in MULTI if r["obs"]["after"].get(fn)]
+    merrs = dict(zip(sorted(set(e for _, _, e in multi_emitted)), vlib.harness("parse", {"srcs": [b64(u) for u in sorted(set(e for _, _, e in multi_emitted))]})["errs"]))
+    for r, fn, e in multi_emitted:
+        ck.count(("multi-write", fn, tuple(sorted(k for k, v in r["sc"].flags.items() if v))))
+        ck.tally("outcome", "multi-file write")
+        if merrs.get(e):
+            ck.violation("after a run over several files (exit status %d) %s does not parse: %s" % (r["obs"]["rc"], fn, merrs[e][:150]),
+                         dict(r["sc"].describe(), rc=r["obs"]["rc"], file=fn, content=e.decode("utf-8", "replace")[:1500]))
+        elif r["obs"]["rc"] == 0 and e.count(b"bar(") != MULTI[fn].count(b"foo(") :
+            ck.violation("after a run over several files %s is not its own rewrite (exit status 0)" % fn,
+                         dict(r["sc"].describe(), file=fn, content=e.decode("utf-8", "replace")[:1500]))
     results = clicorr.run_scenarios(scs, api=True)
     # collect every emitted content, parse them all at once
     emitted = []
